@@ -348,6 +348,23 @@ def check_property(pid: str, tier: str, seed: int) -> int:
                 lines.append(f"KNOWN-FINDING: property={pid} {f['id']}: {f['what']}")
             else:
                 lines.append(f"NOTE: property={pid} listed finding {f['id']} no longer reproduces ({d[:120]})")
+        # 1b. the lxml model is trusted base: validate it against real lxml before relying on it
+        symdom_validation = {}
+        if any(o.shadow for o in obls):
+            cmds = [("xpath_diff", [str(ROOT / "bin" / "symdom_xpath_diff")])]
+            if tier == "thorough":
+                cmds.append(("repository_tests_on_model", [str(ROOT / "bin" / "symdom_validate")]))
+            for label, cmd in cmds:
+                try:
+                    cp = subprocess.run(cmd, capture_output=True, text=True, timeout=1800, env=base_env(False))
+                    tail = (cp.stdout.strip().splitlines() or [""])[-1]
+                    symdom_validation[label] = {"exit": cp.returncode, "result": tail[:300]}
+                    if cp.returncode != 0:
+                        lines.append(f"HARNESS-ERROR property={pid} the lxml model disagrees with real lxml ({label}): {tail[:200]}")
+                        exit_code = 3
+                except subprocess.TimeoutExpired:
+                    symdom_validation[label] = {"exit": None, "result": "timed out"}
+        finding_state["_symdom_validation"] = symdom_validation
         # 2. obligations (+ reachability twins) in parallel
         order = sorted(obls, key=lambda o: -(o.weight or o.timeout))
         if seed:
@@ -421,7 +438,7 @@ def check_property(pid: str, tier: str, seed: int) -> int:
                     lines.append(f"INCONCLUSIVE property={pid} obligation={o.name}: {r.detail[:200]}")
         if n_viol:
             exit_code = 1
-        elif n_harness:
+        elif n_harness or exit_code == 3:
             exit_code = 3
         elif n_incon and os.environ.get("VERIF_STRICT") == "1":
             exit_code = 2
